@@ -1,4 +1,173 @@
-import Rngs.Model.Xoshiro
+/-
+  C09 — All seeding routes agree: seed_from_u64, from_rng and try_from_rng.
+-/
+import Rngs.Lib.SeedLemmas
+import Rngs.Model.Hc128
+import Rngs.Model.Isaac
 namespace Rngs.C09
-theorem placeholder : True := trivial
+open Rngs Rngs.Codec Rngs.Seed
+
+/-! ### seed_from_u64 -/
+
+/-- `SplitMix64::seed_from_u64(x)` is the generator whose counter is x
+    (`from_seed(x.to_le_bytes())` decodes the same bytes little-endian). -/
+theorem SplitMix64_seedFromU64 (x : U64) : SplitMix64.seedFromU64 x = x := by
+  simp [SplitMix64.seedFromU64, SplitMix64.fromSeed, le64At_toLE]
+
+/-- the documented expansion: the little-endian bytes of the first `k` native outputs of the
+    SplitMix64 stream started at x (first output, then the expansion of the successor counter) -/
+def expansion (x : U64) : Nat → List U8
+  | 0 => []
+  | k + 1 => U64.toLE (SplitMix64.nextU64 x).1 ++ expansion (SplitMix64.nextU64 x).2 k
+
+theorem expansion_length (x : U64) (k : Nat) : (expansion x k).length = 8 * k := by
+  induction k generalizing x with
+  | zero => rfl
+  | succ k ih => simp only [expansion, List.length_append, toLE64_length, ih]; omega
+
+theorem fillLoop_eq_expansion (k : Nat) (x : U64) :
+    (fillLoop SplitMix64.nextU64 k x).1 = expansion x k := by
+  induction k generalizing x with
+  | zero => rfl
+  | succ k ih => simp only [fillLoop, expansion, ih]
+
+/-- For seed sizes that are multiples of 8 (all of them: 8, 16, 32, 64), `fill_bytes` of SplitMix64
+    delivers exactly the little-endian bytes of the next `n/8` native outputs. -/
+theorem splitmix_fill_eq_expansion (k : Nat) (x : U64) : (SplitMix64.fill (8 * k) x).1 = expansion x k := by
+  have h1 : 8 * k / 8 = k := by omega
+  have h2 : 8 * k % 8 = 0 := by omega
+  simp only [SplitMix64.fill, fillBytesViaNext, SplitMix64.direct, h1, h2]
+  have : ¬ (0 > 4) := by omega
+  simp only [this, if_false, Nat.lt_irrefl, gt_iff_lt]
+  exact fillLoop_eq_expansion k x
+
+/-- **xoshiro family**: `seed_from_u64(x) = from_seed(first seed-length bytes of the SplitMix64
+    stream started at x)`, for every x and each of the 14 generators (g arbitrary). -/
+theorem seedFromU64_eq_fromSeed_expansion {σ : Type} (g : XoGen σ) (k : Nat) (hk : g.seedLen = 8 * k) (x : U64) :
+    g.seedFromU64? x = g.fromSeed? (expansion x k) := by
+  simp only [XoGen.seedFromU64?, XoGen.seedFromU64Fuel, XoGen.fromSeed?, SplitMix64_seedFromU64, hk,
+    splitmix_fill_eq_expansion]
+
+/-- the seed sizes of the 14 generators are 8·1, 8·2, 8·4, 8·8 -/
+theorem seedLens :
+    Xoroshiro64Star.gen.seedLen = 8 * 1 ∧ Xoroshiro64StarStar.gen.seedLen = 8 * 1 ∧
+    Xoroshiro128Plus.gen.seedLen = 8 * 2 ∧ Xoroshiro128PlusPlus.gen.seedLen = 8 * 2 ∧
+    Xoroshiro128StarStar.gen.seedLen = 8 * 2 ∧ Xoshiro128Plus.gen.seedLen = 8 * 2 ∧
+    Xoshiro128PlusPlus.gen.seedLen = 8 * 2 ∧ Xoshiro128StarStar.gen.seedLen = 8 * 2 ∧
+    Xoshiro256Plus.gen.seedLen = 8 * 4 ∧ Xoshiro256PlusPlus.gen.seedLen = 8 * 4 ∧
+    Xoshiro256StarStar.gen.seedLen = 8 * 4 ∧ Xoshiro512Plus.gen.seedLen = 8 * 8 ∧
+    Xoshiro512PlusPlus.gen.seedLen = 8 * 8 ∧ Xoshiro512StarStar.gen.seedLen = 8 * 8 := by
+  refine ⟨rfl, rfl, rfl, rfl, rfl, rfl, rfl, rfl, rfl, rfl, rfl, rfl, rfl, rfl⟩
+
+/-- **XorShiftRng, Hc128Rng**: rand_core's default — `from_seed` of the PCG32 expansion of x. -/
+theorem XorShift_seedFromU64 (x : U64) : XorShift.seedFromU64 x = XorShift.fromSeed (pcg32Seed 16 x) := by
+  unfold XorShift.seedFromU64; rfl
+theorem Hc128_seedFromU64 (x : U64) : Hc128.seedFromU64 x = Hc128.fromSeed (pcg32Seed 32 x) := by
+  unfold Hc128.seedFromU64; rfl
+
+theorem pcg32_length (st : U64) : (pcg32 st).1.length = 4 := by
+  unfold pcg32
+  exact toLE32_length _
+
+/-- the PCG32 expansion has the seed's length (for lengths that are multiples of 4) -/
+theorem pcg32Chunks_length (k : Nat) (st : U64) : (pcg32Chunks k st).1.length = 4 * k := by
+  induction k generalizing st with
+  | zero => rfl
+  | succ k ih =>
+    simp only [pcg32Chunks, List.length_append]
+    rw [ih, pcg32_length]; omega
+
+theorem pcg32Seed_length (k : Nat) (x : U64) : (pcg32Seed (4 * k) x).length = 4 * k := by
+  have h1 : 4 * k / 4 = k := by omega
+  have h2 : 4 * k % 4 = 0 := by omega
+  simp [pcg32Seed, h1, h2, pcg32Chunks_length]
+
+/-- **IsaacRng / Isaac64Rng**: x in the first key words, zeros elsewhere, ONE initialisation pass. -/
+theorem Isaac_seedFromU64 (x : U64) :
+    Isaac.seedFromU64Core32 x =
+      Isaac.init Isaac.params32 (Isaac.extend [x.setWidth 32, (x >>> 32).setWidth 32]) 1 := by
+  unfold Isaac.seedFromU64Core32; rfl
+theorem Isaac64_seedFromU64 (x : U64) :
+    Isaac.seedFromU64Core64 x = Isaac.init Isaac.params64 (Isaac.extend [x]) 1 := by
+  unfold Isaac.seedFromU64Core64; rfl
+
+/-! ### from_rng / try_from_rng -/
+
+/-- **default `from_rng`/`try_from_rng`** (xoshiro family, SplitMix64, Hc128Rng): the generator is
+    `from_seed` of exactly the bytes one `fill_bytes(seed length)` call delivers, the source is left
+    in the state after that one call, and a failure of the source is returned unchanged — for every
+    source and every position at which it fails. -/
+theorem fromRngDefault_spec {σ ρ : Type} (seedLen : Nat) (fromSeed : List U8 → σ) (fill : TryFill ρ) (src : ρ) :
+    (∀ bytes src', fill src seedLen = (.ok bytes, src') →
+        fromRngDefault seedLen fromSeed fill src = (.ok (fromSeed bytes), src')) ∧
+    (∀ e src', fill src seedLen = (.error e, src') →
+        fromRngDefault seedLen fromSeed fill src = (.error e, src')) := by
+  constructor
+  · intro b s h; simp [fromRngDefault, h]
+  · intro e s h; simp [fromRngDefault, h]
+
+theorem xoshiro_fromRng {σ ρ : Type} (g : XoGen σ) (fill : TryFill ρ) (src : ρ) :
+    g.fromRng? fill src = fromRngDefault g.seedLen g.fromSeed? fill src := by
+  unfold XoGen.fromRng?; rfl
+theorem Hc128_fromRng {ρ : Type} (fill : TryFill ρ) (src : ρ) :
+    Hc128.fromRng fill src = fromRngDefault 32 Hc128.fromSeed fill src := by
+  unfold Hc128.fromRng; rfl
+
+/-- **ISAAC**: `from_rng` fills 1024 (resp. 2048) bytes, reads them as little-endian words and runs
+    TWO passes; `try_from_rng` is the same function (two passes as well) and returns the source's
+    error, never a generator, when the source fails. -/
+theorem Isaac_fromRng_spec {ρ : Type} (fill : TryFill ρ) (src : ρ) :
+    (∀ bytes src', fill src 1024 = (.ok bytes, src') →
+        Isaac.fromRng32 fill src =
+          (.ok (BlockRng.new Isaac.blockCore32 (Isaac.init Isaac.params32 (readU32s bytes 256).toArray 2)), src')) ∧
+    (∀ e src', fill src 1024 = (.error e, src') → Isaac.fromRng32 fill src = (.error e, src')) ∧
+    Isaac.tryFromRng32 fill src = Isaac.fromRng32 fill src := by
+  refine ⟨?_, ?_, by unfold Isaac.tryFromRng32 Isaac.fromRng32; rfl⟩
+  · intro b s h; simp [Isaac.fromRng32, Isaac.RAND_SIZE, h]
+  · intro e s h; simp [Isaac.fromRng32, Isaac.RAND_SIZE, h]
+
+theorem Isaac64_fromRng_spec {ρ : Type} (fill : TryFill ρ) (src : ρ) :
+    (∀ bytes src', fill src 2048 = (.ok bytes, src') →
+        Isaac.fromRng64 fill src =
+          (.ok (BlockRng64.new Isaac.blockCore64 (Isaac.init Isaac.params64 (readU64s bytes 256).toArray 2)), src')) ∧
+    (∀ e src', fill src 2048 = (.error e, src') → Isaac.fromRng64 fill src = (.error e, src')) ∧
+    Isaac.tryFromRng64 fill src = Isaac.fromRng64 fill src := by
+  refine ⟨?_, ?_, by unfold Isaac.tryFromRng64 Isaac.fromRng64; rfl⟩
+  · intro b s h; simp [Isaac.fromRng64, Isaac.RAND_SIZE, h]
+  · intro e s h; simp [Isaac.fromRng64, Isaac.RAND_SIZE, h]
+
+/-- **XorShiftRng**: `from_rng` redraws only while the block is all zero: if the source delivers
+    `k` all-zero blocks and then a block `b` that is not all zero, the result is `b` decoded and the
+    source has been asked exactly `k + 1` times; an error at any draw is returned. -/
+theorem XorShift_fromRng_first_nonzero {ρ : Type} (fill : TryFill ρ) (srcs : Nat → ρ) (blocks : Nat → List U8)
+    (k fuel : Nat) (hfuel : k < fuel)
+    (hdraw : ∀ i, i ≤ k → fill (srcs i) 16 = (.ok (blocks i), srcs (i + 1)))
+    (hzero : ∀ i, i < k → isAllZero (blocks i) = true) (hk : isAllZero (blocks k) = false) :
+    XorShift.fromRngFuel fill fuel (srcs 0) = (.ok (S4.decode32 (blocks k)), srcs (k + 1)) := by
+  suffices h : ∀ j, j ≤ k → ∀ fuel', k - j < fuel' →
+      XorShift.fromRngFuel fill fuel' (srcs j) = (.ok (S4.decode32 (blocks k)), srcs (k + 1)) from
+    h 0 (Nat.zero_le _) fuel (by omega)
+  intro j hj
+  induction hd : k - j generalizing j with
+  | zero =>
+    intro fuel' hf
+    have hjk : j = k := by omega
+    subst hjk
+    obtain ⟨f, rfl⟩ : ∃ f, fuel' = f + 1 := ⟨fuel' - 1, by omega⟩
+    simp [XorShift.fromRngFuel, hdraw j (Nat.le_refl _), hk]
+  | succ d ih =>
+    intro fuel' hf
+    obtain ⟨f, rfl⟩ : ∃ f, fuel' = f + 1 := ⟨fuel' - 1, by omega⟩
+    have hlt : j < k := by omega
+    simp only [XorShift.fromRngFuel, hdraw j hj, hzero j hlt]
+    simpa using ih (j + 1) (by omega) (by omega) f (by omega)
+
+theorem XorShift_fromRng_error {ρ : Type} (fill : TryFill ρ) (src src' : ρ) (e : SrcErr) (fuel : Nat)
+    (h : fill src 16 = (.error e, src')) : XorShift.tryFromRngFuel fill (fuel + 1) src = (.error e, src') := by
+  simp [XorShift.tryFromRngFuel, h]
+
+/-- non-vacuity: the expansion of 0 for a 16-byte seed is the two SplitMix64 outputs
+    e220a8397b1dcdaf, 6e789e6aa1b965f4 (the values documented in splitmix64.c) -/
+example : expansion 0 2 = U64.toLE 0xe220a8397b1dcdaf#64 ++ (U64.toLE 0x6e789e6aa1b965f4#64 ++ []) := by decide +kernel
+
 end Rngs.C09
